@@ -3,6 +3,8 @@ package props
 import (
 	"bytes"
 	"fmt"
+	"github.com/tobgu/qframe/config/groupby"
+	"io"
 	"math"
 	"math/rand"
 	"strconv"
@@ -218,6 +220,27 @@ func runC14(c *fw.Case) {
 			}
 		}
 	}
+	if rng.Intn(8) == 0 && len(sh.Cols) >= 2 && sh.Len() > 0 {
+		// a frame produced by Aggregate whose columns carry aliases (As), serialised after its source was serialised
+		_ = qf.ToJSON(&bytes.Buffer{})
+		key, x := sh.Cols[0].Name, sh.Cols[1].Name
+		var ag qframe.QFrame
+		if pv, _ := fw.Guard(func() {
+			ag = qf.GroupBy(groupby.Columns(key), groupby.Null(true)).Aggregate(
+				qframe.Aggregation{Fn: "count", Column: x, As: "alias one of " + x}, qframe.Aggregation{Fn: "count", Column: x, As: "alias two"}, qframe.Aggregation{Fn: "count", Column: key, As: "n"})
+		}); pv == nil && ag.Err == nil {
+			if sh2, e := model.ObserveGuard(ag); e == nil {
+				km := meta[key]
+				meta = model.Meta{}
+				if km != nil {
+					meta[key] = km
+				}
+				meta.Apply(sh2)
+				qf, sh = ag, sh2
+				c.Count("frames_produced_by_aggregate_with_aliases", 1)
+			}
+		}
+	}
 	var doc []byte
 	c.DescribeLazy(func() interface{} {
 		d := sh.Describe(10)
@@ -226,12 +249,32 @@ func runC14(c *fw.Case) {
 		return d
 	})
 	c.Eval(1)
-	var buf bytes.Buffer
+	// the destination: a fresh buffer, a buffer with spare capacity, one that already holds output, one that was reset,
+	// or the same behind a plain io.Writer
+	buf := &bytes.Buffer{}
+	prefix := 0
+	var dest io.Writer = buf
+	switch rng.Intn(6) {
+	case 0:
+		buf = bytes.NewBuffer(make([]byte, 0, 64+rng.Intn(8000)))
+		dest = buf
+	case 1:
+		buf.WriteString("earlier output\n")
+		buf.Grow(rng.Intn(5000))
+		prefix = buf.Len()
+		dest = buf
+	case 2:
+		buf.WriteString(strings.Repeat("x", 1+rng.Intn(3000)))
+		buf.Reset()
+		dest = buf
+	case 3:
+		dest = struct{ io.Writer }{buf}
+	}
 	var werr error
-	if !c.GuardFail("tojson", "ToJSON", func() { werr = qf.ToJSON(&buf) }) {
+	if !c.GuardFail("tojson", "ToJSON", func() { werr = qf.ToJSON(dest) }) {
 		return
 	}
-	doc = buf.Bytes()
+	doc = buf.Bytes()[prefix:]
 	if werr != nil {
 		c.Fail("tojson-err", "ToJSON failed: %v", werr)
 		return
